@@ -84,8 +84,8 @@ def run_verus(world_path: str, unit: str, fn_names: list[str], cmap: dict, rlimi
     try:
         for mod in out["times-ms"]["smt"]["smt-run-module-times"]:
             for f in mod["function-breakdown"]:
-                short = f["function"].split("::", 1)[1] if "::" in f["function"] else f["function"]
-                if short in fn_names:
+                last = f["function"].rsplit("::", 1)[-1]
+                if f.get("mode:") == "exec" and last in fn_names:
                     res.fn_success = f["success"] if res.fn_success in (None, True) else False
                     res.rlimit += f.get("rlimit", 0)
                     res.smt_ms += f.get("time-micros", 0) / 1000.0
